@@ -853,12 +853,12 @@ func init() {
 			var wg sync.WaitGroup
 			var cmu sync.Mutex
 			bad := 0
-			for g := 0; g < 8; g++ {
+			for g := 0; g < 16; g++ {
 				wg.Add(1)
 				go func(g int) {
 					defer wg.Done()
 					iss := cast.Ed(fmt.Sprintf("k%d", g%4))
-					for k := 0; k < 40; k++ {
+					for k := 0; k < 150; k++ {
 						var d delegation.Delegation
 						var err error
 						if p := recovered(func() {
@@ -882,7 +882,7 @@ func init() {
 			}
 			wg.Wait()
 			if bad > 0 {
-				direct = append(direct, map[string]any{"delegation": "concurrent", "what": fmt.Sprintf("link is not the CID of the root block bytes (or issuing failed) for %d of 320 delegations issued from 8 goroutines at once", bad)})
+				direct = append(direct, map[string]any{"delegation": "concurrent", "what": fmt.Sprintf("link is not the CID of the root block bytes (or issuing failed) for %d of 2400 delegations issued from 16 goroutines at once", bad)})
 			}
 		}
 		// ---- LARGE messages (an invocation with one 5 MiB attachment; with six 1 MiB attachments): whatever a codec writes
